@@ -326,7 +326,11 @@ impl Drawable<'_> {
     }
 
     pub(crate) fn clear(mut self) -> io::Result<()> {
-        let state = self.state();
+        let mut state = self.state();
+        // Give the whole region back: bottom alignment would keep its rows as blank padding,
+        // and whatever is printed next (the closure of `suspend`) would end up below them and
+        // be erased by the following redraw. The next draw sets the alignment again.
+        state.alignment = MultiProgressAlignment::Top;
         drop(state);
         self.draw()
     }
